@@ -414,12 +414,23 @@ type BlockSpec struct {
 	WithCSize bool
 	WithUSize bool
 	ExtraPad  int // extra header padding in units of 4 bytes
+	// CSizeLie / USizeLie: value declared in the block header instead of the
+	// truth (the field is then present whatever With* says); every CRC32 is
+	// computed over what is written, so the result is a CRC-valid stream with
+	// semantically absurd metadata
+	CSizeLie *uint64
+	USizeLie *uint64
 }
 
 // StreamSpec describes a stream for the xz generator.
 type StreamSpec struct {
 	Check  byte
 	Blocks []BlockSpec
+	// lies in the index and the footer (see BlockSpec.CSizeLie)
+	CountLie    *uint64
+	UnpaddedLie map[int]uint64
+	RecUSizeLie map[int]uint64
+	BackwardLie *uint32
 }
 
 // EncodeXZ builds one xz stream. It returns the stream bytes and content.
@@ -440,13 +451,21 @@ func EncodeXZ(sp StreamSpec) (stream, plain []byte, err error) {
 			return nil, nil, err
 		}
 		h := []byte{0, 0}
-		if b.WithCSize {
+		if b.WithCSize || b.CSizeLie != nil {
 			h[1] |= 0x40
-			h = PutVarint(h, uint64(len(data)))
+			v := uint64(len(data))
+			if b.CSizeLie != nil {
+				v = *b.CSizeLie
+			}
+			h = PutVarint(h, v)
 		}
-		if b.WithUSize {
+		if b.WithUSize || b.USizeLie != nil {
 			h[1] |= 0x80
-			h = PutVarint(h, uint64(len(content)))
+			v := uint64(len(content))
+			if b.USizeLie != nil {
+				v = *b.USizeLie
+			}
+			h = PutVarint(h, v)
 		}
 		h = append(h, 0x21, 1, b.DictCode)
 		for len(h)%4 != 0 {
@@ -471,8 +490,18 @@ func EncodeXZ(sp StreamSpec) (stream, plain []byte, err error) {
 		plain = append(plain, content...)
 	}
 	idx := []byte{0}
-	idx = PutVarint(idx, uint64(len(recs)))
-	for _, r := range recs {
+	cnt := uint64(len(recs))
+	if sp.CountLie != nil {
+		cnt = *sp.CountLie
+	}
+	idx = PutVarint(idx, cnt)
+	for i, r := range recs {
+		if v, ok := sp.UnpaddedLie[i]; ok {
+			r.unpadded = v
+		}
+		if v, ok := sp.RecUSizeLie[i]; ok {
+			r.usize = v
+		}
 		idx = PutVarint(idx, r.unpadded)
 		idx = PutVarint(idx, r.usize)
 	}
@@ -483,6 +512,9 @@ func EncodeXZ(sp StreamSpec) (stream, plain []byte, err error) {
 	stream = append(stream, idx...)
 	ft := make([]byte, 12)
 	binary.LittleEndian.PutUint32(ft[4:], uint32(len(idx)/4-1))
+	if sp.BackwardLie != nil {
+		binary.LittleEndian.PutUint32(ft[4:], *sp.BackwardLie)
+	}
 	ft[8], ft[9] = 0, sp.Check
 	copy(ft[10:], xzFootMagic)
 	binary.LittleEndian.PutUint32(ft, crc32.ChecksumIEEE(ft[4:10]))
